@@ -746,6 +746,9 @@ void SchemaValidator::validateElement(const   XMLElementDecl*  elemDef)
         emitError(XMLValid::NillNotAllowed, elemDef->getFullName());
         fErrorOccurred = true;
     }
+    // the xsi:nil attribute seen on this element's start tag has been checked;
+    // it must not be attributed to the child elements
+    fNilFound = false;
 
     fDatatypeBuffer.reset();
     fTrailing = false;
